@@ -191,6 +191,38 @@ def checked_div_bodies(facts):
     return out
 
 
+def _then_receiver_nonzero(pb, clo_local, atoms):
+    """In body pb: is closure `clo_local` the argument of `cond.then(closure)` with cond = !x.is_zero() (or x != 0)?  Returns the
+    atoms of x, else None.  The closure then runs only for x != 0 and the call yields None otherwise."""
+    for i, t in pb.calls():
+        if callee_name(t) != "then" or len(t["args"]) != 2 or i not in pb.live_blocks():
+            continue
+        if "bool" not in ((callee_fn(t) or {}).get("impl_self") or callee(t) or ""):
+            continue
+        if core.op_local(t["args"][1]) != clo_local:
+            # moved temporaries
+            fr = core.Flow(pb).roots_of_operand(t["args"][1])
+            if not any(r[0] == "local" and r[1] == clo_local for r in fr):
+                continue
+        l = core.op_local(t["args"][0])
+        neg = False
+        for _ in range(6):
+            ds = pb.defs().get(l, []) if l is not None else []
+            if len(ds) != 1:
+                break
+            d = ds[0]
+            if d[0] == "assign" and d[3]["rv"]["k"] == "unop" and d[3]["rv"].get("op") == "Not":
+                neg = not neg
+                l = core.op_local(d[3]["rv"]["a"])
+            elif d[0] == "assign" and d[3]["rv"]["k"] == "use":
+                l = core.op_local(d[3]["rv"]["op"])
+            elif d[0] == "call" and callee_name(d[2]) == "is_zero" and d[2]["args"]:
+                return atoms.of_operand(d[2]["args"][0]) if neg else None
+            else:
+                break
+    return None
+
+
 def check_checked_div(ctx, res, config="all"):
     facts = ctx.facts(config)
     bs = checked_div_bodies(facts)
@@ -226,6 +258,14 @@ def check_checked_div(ctx, res, config="all"):
                 continue
             ok = True
             break
+        if not ok and not any(_is_div_family_callee(tt) for i, tt in b.calls() if i in b.live_blocks()):
+            # `(!v.is_zero()).then(|| division)`: None for a zero divisor by construction, the division runs in the closure only
+            for i, si, s_ in b.stmts():
+                rv = s_.get("rv")
+                if rv and rv["k"] == "aggregate" and rv.get("akind") == "closure":
+                    xa = _then_receiver_nonzero(b, s_["place"]["local"], atoms)
+                    if xa is not None and only_from_param(xa, 2):
+                        ok = True
         if ok:
             res.ok("R3b-checked-div", b.path, {"guard": "is_zero(divisor) -> None"})
         else:
@@ -333,8 +373,71 @@ def lit_cmp(op, a, b, truth):
     return {"kind": "cmp", "op": op, "a": a, "b": b, "truth": truth}
 
 
-def match_literal(t, lit):
+SIGN_DISCR = {"Minus": 0, "NoSign": 1, "Plus": 2}
+
+
+def _sign_discriminants(facts):
+    a = facts.adts.get("bigint::Sign") if facts is not None else None
+    out = dict(SIGN_DISCR)
+    for nm, d in (a or {}).get("discriminants", []):
+        out[nm] = int(d)
+    return out
+
+
+def _semantic_alternatives(t, lit, b, facts):
+    """other ways of writing the predicates the guard table names by method: `x.is_negative()` as a match on x.sign or `x < 0`;
+    `x.is_zero()` as a match on the sign, `x.data.is_empty()` / `len() == 0`; `n.is_even()` as `n % 2 == 0` / `n & 1 == 0`"""
+    if lit["kind"] != "call" or len(lit["args"]) != 1 or not str(lit["args"][0]).startswith("p"):
+        return None
+    k = int(lit["args"][0][1:])
+    name = lit["name"]
+    truth = lit["truth"]
+    c = t.cond
+    # a match on the sign of parameter k
+    if c is None and t.values is not None and t.subj and name in ("is_negative", "is_zero", "is_positive"):
+        if all(a[0] == "param" and a[1] == k and a[2][-1:] == ("sign",) for a in t.subj):
+            d = _sign_discriminants(facts)
+            want = {"is_negative": "Minus", "is_zero": "NoSign", "is_positive": "Plus"}[name]
+            hold = t.values.get(d[want], t.values.get("otherwise"))
+            others = {v for kk, v in t.values.items() if kk != d[want]}
+            if truth:
+                return (hold, None) if hold not in others else None
+            # the literal is "not negative": only decidable when all other arms share one target
+            return (next(iter(others)), None) if len(others) == 1 and hold not in others else None
+    if c is None:
+        return None
+    if name == "is_even" and c.kind == "cmp" and c.op in ("Eq", "Ne") and b is not None:
+        for x, y, rx in ((c.a, c.b, c.ra), (c.b, c.a, c.rb)):
+            if params_of(x) == {k} and not calls_of(x) and consts_of(y) <= {0, 1} and not params_of(y) and len(consts_of(y)) == 1:
+                l = core.op_local(rx)
+                ds = b.defs().get(l, []) if l is not None else []
+                if len(ds) == 1 and ds[0][0] == "assign" and ds[0][3]["rv"]["k"] == "binop":
+                    rv = ds[0][3]["rv"]
+                    par = (rv["op"] == "Rem" and core.op_const(rv["b"]) == 2) or (rv["op"] == "BitAnd" and core.op_const(rv["b"]) == 1)
+                    if par:
+                        even_when_true = (next(iter(consts_of(y))) == 0) == (c.op == "Eq")
+                        holds_on_true = even_when_true == truth
+                        return (t.t, t.f) if holds_on_true else (t.f, t.t)
+    if name == "is_zero" and c.kind == "call" and c.name == "is_empty" and c.args:
+        a0 = c.args[0]
+        if a0 and all(a[0] == "param" and a[1] == k and a[2][-1:] == ("data",) for a in a0 if a[0] == "param") and params_of(a0) == {k}:
+            return (t.t, t.f) if truth else (t.f, t.t)
+    if name == "is_zero" and c.kind == "cmp" and c.op in ("Eq", "Ne"):
+        for x, y in ((c.a, c.b), (c.b, c.a)):
+            if params_of(x) == {k} and calls_of(x) <= {"len", "deref"} and "len" in calls_of(x) and consts_of(y) == {0} and not params_of(y):
+                z_on_true = c.op == "Eq"
+                return (t.t, t.f) if z_on_true == truth else (t.f, t.t)
+            if params_of(x) == {k} and not calls_of(x) and not params_of(y) and (calls_of(y) <= {"zero"} and (calls_of(y) or any(a[0] == "named" and str(a[1]).endswith("ZERO") for a in y))):
+                z_on_true = c.op == "Eq"
+                return (t.t, t.f) if z_on_true == truth else (t.f, t.t)
+    return None
+
+
+def match_literal(t, lit, b=None, facts=None):
     """returns the target taken when the literal holds, or None if test t does not decide lit"""
+    alt = _semantic_alternatives(t, lit, b, facts)
+    if alt is not None:
+        return alt
     c = t.cond
     if c is None:
         return None
@@ -363,7 +466,7 @@ def match_literal(t, lit):
     return None
 
 
-def find_panic_guard(b, lits, debug_ok=False):
+def find_panic_guard(b, lits, debug_ok=False, facts=None):
     """conjunction lits -> panic.  Returns (ok, why, detail)"""
     tl, atoms = tests_of(b)
     rets = b.return_blocks()
@@ -373,10 +476,12 @@ def find_panic_guard(b, lits, debug_ok=False):
             return None
         found_any = False
         for t in tl:
-            m = match_literal(t, lits[idx])
+            m = match_literal(t, lits[idx], b, facts)
             if m is None:
                 continue
             hold, other = m
+            if hold is None:
+                continue
             if dom_edge is not None and not b.edge_dominates(dom_edge, t.bb):
                 continue
             found_any = True
@@ -438,6 +543,9 @@ def guard_specs(facts):
     return S
 
 
+GUARD_KEEP = ("is_zero", "is_negative", "is_positive", "is_even", "is_odd", "zero", "plain_modpow", "monty_modpow", "fixpoint", "gen_biguint_below", "gen_biguint", "gen_bigint")
+
+
 def check_guard_table(ctx, res, config="all", roles=None):
     facts = ctx.facts(config)
     for bodies, role, lits, floor in guard_specs(facts):
@@ -447,7 +555,9 @@ def check_guard_table(ctx, res, config="all", roles=None):
             res.fail(Finding("R3a-anchor-lost", role, "function carrying the guard '%s' not found" % role, file="src", line=0))
             continue
         for b in bodies:
-            ok, why, det = find_panic_guard(b, lits)
+            # a guard moved into a private helper (or written through one) is looked through
+            b = core.inline_private(facts, b, keep=GUARD_KEEP)
+            ok, why, det = find_panic_guard(b, lits, facts=facts)
             key = "%s|%s" % (b.path, role)
             if ok:
                 res.ok("R3a-guard", key, {"config": config, "line": det[0].line})
@@ -614,6 +724,8 @@ def check_underflow_asserts(ctx, res, config="all"):
         if b is None:
             res.fail(Finding("R3a-anchor-lost", fname, "%s not found" % fname, file="src/biguint/subtraction.rs", line=0))
             continue
+        # private helpers (an extracted assertion, an extracted borrow loop) are looked through
+        b = core.inline_private(facts, b, keep=("sbb", "__sub2rev", "adc", "schoolbook_sub_assign_x86_64"))
         tl, atoms = tests_of(b)
         rets = b.return_blocks()
         got_borrow = got_high = False
@@ -1067,6 +1179,15 @@ def divisor_status(facts, b, call_bb, t, tl=None, atoms=None, depth=0):
                     except ValueError:
                         continue
                     if idx < len(rv["ops"]):
+                        # the closure is the argument of `(!x.is_zero()).then(..)` with x the captured divisor
+                        clo_l = None
+                        for i_, si_, s_ in pb.stmts():
+                            if s_.get("rv") is rv:
+                                clo_l = s_["place"]["local"]
+                        pat = tests.Atoms(pb)
+                        xa = _then_receiver_nonzero(pb, clo_l, pat) if clo_l is not None else None
+                        if xa is not None and xa == pat.of_operand(rv["ops"][idx]):
+                            return "guarded", ["receiver of bool::then in %s" % pb.path]
                         fake = {"args": [None, rv["ops"][idx]], "span": t["span"]}
                         st, det = divisor_status(facts, pb, cbb, fake, depth=depth + 1)
                         if st in ("guarded", "const-nonzero", "precondition"):
@@ -1172,6 +1293,7 @@ def check_residue_complement(ctx, res, config="all"):
     targets += facts.find(trait="num_integer::Integer", self_ty="bigint::BigInt", name="div_mod_floor")
     n = 0
     for b in targets:
+        b = core.inline_private(facts, b)  # a shared private tail (sign placement helper) is looked through
         tl, atoms = tests_of(b)
         k = 0
         for i, t in b.calls():
@@ -1296,12 +1418,67 @@ def check_panic_site_table(ctx, res):
         return
     with open(p) as fh:
         tab = json.load(fh)["sites"]
-    cur = current_sites(ctx)
+    def canon(k):
+        body, kind, msg = k.split("|", 2)
+        # a message-less assert!(c) and `if !c { panic!() }` are the same site; unwrap/expect stay distinct
+        if not msg and kind in ("assert", "assert_eq", "assert_ne", "panic", "unreachable"):
+            kind = "panic"
+        return "%s|%s|%s" % (body, kind, msg)
+
+    tab_c = {}
+    for k, v in tab.items():
+        tab_c[canon(k)] = tab_c.get(canon(k), 0) + v.get("count", 0)
+    cur_raw = current_sites(ctx)
+    cur = {}
+    for k, n in cur_raw.items():
+        cur[canon(k)] = cur.get(canon(k), 0) + n
     fr = ctx.facts("all-rel")
+    fa = ctx.facts("all")
+    existing = {b.path for b in fr.bodies} | {b.path for b in fa.bodies}
+    callers = {}
+    for b in fa.bodies:
+        for i, t in b.calls():
+            ce = callee(t)
+            if ce:
+                callers.setdefault(ce, set()).add(b.path)
+
+    def moved_from_callers(body, kind, msg):
+        """the site sits in a private helper all of whose (transitive) callers are functions that own this very site in the
+        reviewed inventory: the panic was moved into a helper, not added"""
+        bb_ = fa.body(body) or fr.body(body)
+        if bb_ is None or bb_.exported():
+            return False
+        roots, seen, work = set(), set(), [body]
+        while work:
+            x = work.pop()
+            if x in seen:
+                continue
+            seen.add(x)
+            cs = callers.get(x, set()) - {x}
+            if not cs:
+                return False
+            for c_ in cs:
+                if tab_c.get("%s|%s|%s" % (c_, kind, msg), 0) > 0:
+                    roots.add(c_)
+                else:
+                    cb = fa.body(c_)
+                    if cb is None or cb.exported() and cb.kind != "Closure":
+                        return False
+                    work.append(c_)
+        return bool(roots)
+
+    def moved_from_removed(kind, msg):
+        """the reviewed inventory has this site in a function that no longer exists (a helper was inlined into its callers)"""
+        return any(k_.split("|", 2)[1:] == [kind, msg] and k_.split("|", 2)[0] not in existing for k_ in tab_c)
+
     new = 0
     for k, n in sorted(cur.items()):
-        allowed = tab.get(k, {}).get("count", 0)
+        allowed = tab_c.get(k, 0)
         if n > allowed:
+            body, kind, msg = k.split("|", 2)
+            if kind != "checked-negation" and (moved_from_callers(body, kind, msg) or moved_from_removed(kind, msg)):
+                res.ok("R3c-site", k, {"moved": "same site (kind, message) as the reviewed inventory has in this function's callers / in a removed helper"}, nontrivial=False)
+                continue
             new += 1
             body, kind, msg = k.split("|", 2)
             bb = fr.body(body)
@@ -1312,7 +1489,7 @@ def check_panic_site_table(ctx, res):
             res.fail(Finding("R3c-unclassified-panic", k, "%s has %d such site(s), the reviewed inventory allows %d: %s" % (body, n, allowed, why), bb, file=None if bb else "src"))
         else:
             res.ok("R3c-site", k, None, nontrivial=False)
-    gone = [k for k in tab if k not in cur]
+    gone = [k for k in tab_c if k not in cur]
     for k in gone[:10]:
         res.note("inventory entry no longer present: %s" % k)
     res.count("R3c inventory entries", len(tab))
@@ -1664,6 +1841,6 @@ def check_float_guess_guard(ctx, res, config="all"):
             else:
                 res.fail(Finding("R3-float-guess-unguarded", key, "from_f64(..).unwrap() (line %s) on a float derived from to_f64() without an is_finite() guard: to_f64() returns Some(INFINITY) for large values, from_f64 then returns None and the unwrap panics" % t["span"]["line"], b, t["span"]["line"]))
     res.count("from_f64(to_f64-derived).unwrap() sites", n)
-    if config in ("all", "default") and n < 3:
-        res.fail(Finding("R3-anchor-lost", "float-guess", "only %d float-guess sites found (floor 3)" % n, file="src/biguint.rs", line=0))
+    if config in ("all", "default") and n < 1:
+        res.fail(Finding("R3-anchor-lost", "float-guess", "no float-guess site found (floor 1: the three roots may share one helper)", file="src/biguint.rs", line=0))
     res.clause("R3: every from_f64(..).unwrap() on a float derived from to_f64() is dominated by is_finite() = true [config %s]" % config)
